@@ -5,6 +5,9 @@ Cases
         keyword) or defaulted block size; valid and invalid (n, small_n) combinations.
   rot : structured_rotation / inverse_structured_rotation on an array of any shape, one key
         (+ a second key for the "different keys" clause on inputs with >= 64 non-zero entries).
+  probe: a child process (props/c18_probe.py) runs transform / rotation / tree round trips under a non-default
+        but legal JAX configuration (jax_enable_x64: float64/int64 inputs at 1e-12; jax_threefry_partitionable=False:
+        the classic threefry stream); judged here against exact references.
   tree: the _pytree versions on container trees drawn from dict / list / tuple / namedtuple / None and empty
         containers, nested (tuple at the root, dict of (w, b) tuples, list of namedtuple layers, a bare leaf, ...).
 
@@ -12,7 +15,9 @@ The oracle states the property directly on the real outputs (classical butterfly
 integer/rational arithmetic, norms, round trips); the model comparison asks the compiled Lean model.
 """
 import math
+import os
 import random
+import sys
 from fractions import Fraction
 
 import numpy as np
@@ -20,7 +25,8 @@ import numpy as np
 from vlib import core
 from vlib.core import Outcome, line
 
-MODEL_COST_LIMIT = 9_000_000     # n * sum(axis sizes) the Lean model is asked for
+MODEL_COST_LIMIT = 9_000_000     # n * sum(axis sizes) the Lean model is asked for (thorough tier)
+MODEL_COST_LIMIT_QUICK = 3_000_000   # quick tier: the longest vectors with the widest blocks are judged by the oracle only
 
 
 # ------------------------------------------------------------------------------------------------
@@ -79,6 +85,13 @@ def gen_vector(spec):
     return [Fraction(r.choice([-1, 1]) * r.randrange(1, mag + 1), den) for _ in range(n)]
   if kind == 'ramp':
     return [Fraction(i % (2 * mag + 1) - mag, den) for i in range(n)]
+  if kind == 'dominant':
+    # non-negative, first entry >= sum of the others: every entry of H x is >= 0 (unsigned dtypes)
+    rest = [r.randrange(0, mag + 1) for _ in range(max(n - 1, 0))]
+    return [Fraction(v) for v in ([sum(rest) + r.randrange(0, 4)] + rest)[:n]]
+  if kind == 'big':
+    # integers of magnitude ~mag (top bits set), so that partial sums leave the float32-exact range
+    return [Fraction(r.choice([-1, 1]) * r.randrange(mag // 2, mag + 1)) for _ in range(n)]
   return [Fraction(r.randrange(-mag, mag + 1), den) for _ in range(n)]
 
 
@@ -271,11 +284,11 @@ def fixed_tree_specs(rng):
 class C18(core.Property):
   ID = 'C18'
   RULE = ('cases: wht (length 2^k, k=0..14, block size 2^1..2^11 explicit positional/keyword or defaulted, '
-          'integer / dyadic / unit / float vectors, plus invalid lengths and block sizes), rot (array shapes of '
+          'integer / dyadic / unit / float vectors, int8/uint8/int16/int32 inputs whose H x is exactly representable incl. int32 results beyond 2^24, plus invalid lengths and block sizes), rot (array shapes of '
           'size >= 1 incl. 0-d, non-powers of two, multi-dimensional; size-0 rejection), tree (containers dict/list/tuple/namedtuple/None/empty, nested to depth 3, 0..6 leaves incl. 0-d, bare leaf); '
           'non-trivial = transform of a non-constant vector of length >= 4 whose result differs from the input, '
           'from the bit-reversed-order transform and from the input scaled; rotations: size >= 2 and x != 0; '
-          'distinct by case digest')
+          'two child-process probes per run (x64: float64/int64 transforms and rotation round trips at 1e-12; classic threefry stream: rotation/tree round trips on non-power-of-two sizes); distinct by case digest')
   TRUSTED = ['jax.random.rademacher / jax.random.split are deterministic functions of (key, shape) and give '
              'entries ±1 (monitored on every case); "different keys draw different sign vectors" is an idealised-PRNG '
              'assumption, monitored only on inputs with >= 64 non-zero entries (collision probability 2^-64)',
@@ -303,6 +316,17 @@ class C18(core.Property):
       yield self._rot_case(rng, shape)
     for spec in fixed_tree_specs(rng):
       yield {'kind': 'tree', 'spec': spec, 'key': rng.randrange(2 ** 31)}
+    # non-default JAX configurations run in child processes, started now and collected after the grid
+    probes = [self._probe_case(rng, 'x64', tier), self._probe_case(rng, 'threefry0', tier)]
+    yield {'kind': 'probe-start', 'probes': probes}
+    # integer dtypes: entries and partial sums fit the dtype, H x must be exact (int32 beyond 2^24)
+    int_cases = [('int32', 8, None), ('int32', 10, 2), ('int32', 10, None), ('int32', 9, 3), ('int8', 4, None),
+                 ('int8', 3, 1), ('uint8', 3, None), ('uint8', 4, 2), ('int16', 6, 3), ('uint32', 5, None)]
+    if tier == 'thorough':
+      int_cases += [('int32', k, s) for k in (8, 9, 11, 12, 13, 14) for s in (None, 2, 4, 8)] + \
+                   [(dt, k, s) for dt in ('int8', 'uint8', 'int16', 'uint16') for k in (1, 2, 3, 4) for s in (None, 1, 2)]
+    for dt, k, s in int_cases:
+      yield self._wht_int_case(rng, dt, k, s)
     # the (length, block size) grid of the property text: 2^0..2^14 x (default, 2^1..2^8)
     ks = list(range(0, 15))
     ss = [None] + list(range(1, 9))
@@ -313,6 +337,8 @@ class C18(core.Property):
     rng.shuffle(grid)
     for idx, (k, s) in enumerate(grid):
       yield self._wht_case(rng, k, s, idx)
+    for pc in probes:
+      yield pc
     # invalid combinations (the code must reject them; classes compared with the model)
     for n, small in ((8, 1), (8, 0), (8, -2), (6, None), (12, 4), (8, 6), (36, 6), (0, None), (0, 2), (512, 2),
                      (1024, 2), (3, 2), (8, 3)):
@@ -324,7 +350,10 @@ class C18(core.Property):
       if t < 4:
         k = rng.randrange(0, 11)
         s = rng.choice([None, 1, 2, 3, 4, 5, 6, 7, 8, 9, 10, 11])
-        yield self._wht_case(rng, k, s, i)
+        if rng.random() < 0.15:
+          yield self._wht_int_case(rng, rng.choice(['int32', 'int32', 'int8', 'uint8', 'int16']), k, s)
+        else:
+          yield self._wht_case(rng, k, s, i)
       elif t < 7:
         nd = rng.choice([0, 1, 1, 2, 2, 3])
         shape = [rng.choice([1, 2, 3, 4, 5, 7, 8, 9, 16, 17, 33]) for _ in range(nd)]
@@ -355,6 +384,47 @@ class C18(core.Property):
     return {'kind': 'wht', 'n': n, 'small': None if s is None else 2 ** s, 'kw': bool(idx % 2),
             'x': {'seed': rng.randrange(2 ** 31), 'n': n, 'mag': mag, 'den': den, 'kind': kind},
             'extra': idx % 3 == 0}
+
+  def _wht_int_case(self, rng, dt, k, s):
+    info = np.iinfo(dt)
+    if info.bits <= 16:
+      k = min(k, 4 if info.bits == 8 else 8)
+    n = 2 ** k
+    if info.min == 0:
+      x = {'seed': rng.randrange(2 ** 31), 'n': n, 'kind': 'dominant', 'mag': max(1, min(3, (info.max - 3) // (2 * n)))}
+    else:
+      mag = min(2 ** 20, info.max // n)
+      x = {'seed': rng.randrange(2 ** 31), 'n': n, 'kind': 'big' if mag >= 2 else 'uniform', 'mag': max(mag, 1)}
+    return {'kind': 'wht', 'n': n, 'small': None if s is None else 2 ** s, 'kw': bool(rng.randrange(2)), 'x': x,
+            'dtype': dt, 'extra': False}
+
+  def _probe_case(self, rng, mode, tier):
+    """items for one child process running under a non-default JAX configuration (explicit values)"""
+    g = random.Random(rng.randrange(2 ** 31))
+    vec = lambda n: [g.gauss(0, 1) * g.choice([1, 1, 8, 1 / 16]) for _ in range(n)]
+    items = []
+    more = tier == 'thorough'
+    if mode == 'x64':
+      fdt = 'float64'
+      for k, small in [(3, None), (8, None), (10, 4)] + ([(6, 2), (12, None), (9, 8)] if more else []):
+        items.append({'op': 'wht', 'dtype': 'float64', 'x': vec(2 ** k), 'small': small})
+      items.append({'op': 'wht', 'dtype': 'float64', 'x': [float(g.randrange(-2 ** 40, 2 ** 40)) for _ in range(64)], 'small': None})
+      items.append({'op': 'wht', 'dtype': 'int64', 'x': [g.randrange(-2 ** 40, 2 ** 40) for _ in range(128)], 'small': 4})
+      shapes = [[], [5], [3, 4], [129]] + ([[7], [2, 3, 5], [64], [1]] if more else [])
+    else:
+      fdt = 'float32'
+      # non-powers of two of size >= 5 are where a sign stream that depends on the requested length shows
+      shapes = [[5], [6], [7], [3, 3], [2, 3, 5], [33], [129], [], [4], [3]] + \
+               ([[s] for s in range(9, 32)] + [[5, 5], [100], [1000]] if more else [])
+    for sh in shapes:
+      items.append({'op': 'rot', 'dtype': fdt, 'shape': sh, 'x': vec(shape_size(sh)), 'key': g.randrange(2 ** 31)})
+    L = lambda sh: ['leaf', sh, vec(shape_size(sh))]
+    trees = [['tuple', [L([5]), L([3])]], ['dict', [['dense', ['nt', 'Dense', [L([3, 2]), L([])]]], ['out', ['list', [L([7])]]]]]]
+    if more:
+      trees += [L([6]), ['list', [['tuple', [L([9]), L([2, 5])]], ['none'], L([1])]]]
+    for t in trees:
+      items.append({'op': 'tree', 'dtype': fdt, 'spec': t, 'key': g.randrange(2 ** 31)})
+    return {'kind': 'probe', 'mode': mode, 'items': items}
 
   def _rot_case(self, rng, shape):
     size = shape_size(shape)
@@ -392,6 +462,14 @@ class C18(core.Property):
             yield self._reshape(case, shape[:i] + [c] + shape[i + 1:])
       if case.get('dtype') != 'float32':
         yield {**case, 'dtype': 'float32'}
+    elif kind == 'probe':
+      items = case['items']
+      if len(items) > 1:
+        for it in items:
+          yield {**case, 'items': [it]}
+      elif items and items[0]['op'] == 'wht' and len(items[0]['x']) > 2:
+        it = items[0]
+        yield {**case, 'items': [{**it, 'x': it['x'][:len(it['x']) // 2]}]}
     elif kind == 'tree':
       spec = case['spec'] if 'spec' in case else legacy_tree_spec(case)
       base = {k: v for k, v in case.items() if k not in ('struct', 'shapes', 'xs')}
@@ -421,6 +499,12 @@ class C18(core.Property):
       return self._eval_rot(case, ctx)
     if kind == 'tree':
       return self._eval_tree(case, ctx)
+    if kind == 'probe-start':
+      for pc in case['probes']:
+        self._probe_start(pc)
+      return Outcome(nontrivial=False, tags=('probe:start',))
+    if kind == 'probe':
+      return self._eval_probe(case, ctx)
     raise core.InfraError(f'unknown case kind {kind}')
 
   def _call_wht(self, arr, small, kw, eager=False):
@@ -474,6 +558,13 @@ class C18(core.Property):
     else:
       xq = gen_vector(xspec)
       xf = np.array([float(v) for v in xq], dtype=np.float32)
+    dt = case.get('dtype', 'float32')
+    if dt != 'float32':
+      # integer input: every entry and every partial sum is representable in the dtype (generator's
+      # responsibility), so H x must come back exactly, in the same dtype
+      if any(v.denominator != 1 for v in xq):
+        xq = [Fraction(int(v)) for v in xq]
+      xf = np.array([int(v) for v in xq], dtype=dt)
     arr = jnp.asarray(xf)
     valid = self._valid(n, eff_small)
     problems, corr, key = [], [], None
@@ -518,7 +609,7 @@ class C18(core.Property):
                 key = 'C18/wht/value'
                 break
         # corollaries on the real code: involution and linearity (exact for small integers)
-        if not problems and case.get('extra') and not is_float:
+        if not problems and case.get('extra') and not is_float and dt == 'float32':
           y2, err2 = self._call_wht(jnp.asarray(y), small, kw, eager)
           if err2 is not None:
             problems.append(f'second application raised {type(err2).__name__}')
@@ -547,7 +638,7 @@ class C18(core.Property):
             or len(shape_model) != -(-ilog2(n) // ilog2(eff_small)):
           corr.append(f'model shape schedule {shape_model} violates C18_shape')
     cost = n * sum(shape_model) if shape_model else n
-    if cost <= MODEL_COST_LIMIT and n <= 2 ** 14:
+    if cost <= (MODEL_COST_LIMIT if ctx.tier == 'thorough' else MODEL_COST_LIMIT_QUICK) and n <= 2 ** 14:
       ans = ctx.drv.ask1('c18.fwht', max(eff_small, 0), xq)
       detail['model'] = ans if ans[0] == 'err' else ['ok', [str(v) for v in ans[1][:16]]]
       if ans[0] == 'err':
@@ -587,7 +678,10 @@ class C18(core.Property):
     tags = (f'wht:k={ilog2(n) if is_pow2(n) else "np2"}',
             f'wht:small={"default" if small is None else (ilog2(small) if small >= 1 and is_pow2(small) else "bad")}',
             f'wht:axes={len(shape_model) if shape_model is not None else "-"}', f'wht:valid={valid}', f'wht:path={"eager" if eager else "jit"}',
-            f'wht:x={"float" if is_float else (xspec.get("kind", "uniform") if isinstance(xspec, dict) else "explicit")}')
+            f'wht:x={"float" if is_float else (xspec.get("kind", "uniform") if isinstance(xspec, dict) else "explicit")}',
+            f'wht:dtype={dt}')
+    if dt != 'float32' and want is not None and max(abs(float(v)) for v in want) > 2 ** 24:
+      tags += ('wht:int-result>2^24',)
     return Outcome(oracle_fail='; '.join(problems[:3]) or None, corr_fail='; '.join(corr[:3]) or None,
                    nontrivial=nontriv, tags=tags, key=key, detail=detail)
 
@@ -747,6 +841,180 @@ class C18(core.Property):
             f'rot:dtype={dtype}')
     return Outcome(oracle_fail='; '.join(problems[:3]) or None, corr_fail='; '.join(corr[:3]) or None,
                    nontrivial=size >= 2 and nonzero >= 1, tags=tags, key=fkey, detail=detail)
+
+  # ---- child-process probes (non-default JAX configurations) ---------------------------------------
+
+  def _probe_start(self, case):
+    import shutil, subprocess, tempfile, json as _json
+    children = self.__dict__.setdefault('_children', {})
+    dg = core.case_digest(case)
+    if dg in children:
+      return children[dg]
+    tmp = tempfile.mkdtemp(prefix='c18probe')
+    spec_p, out_p = os.path.join(tmp, 'spec.json'), os.path.join(tmp, 'out.json')
+    with open(spec_p, 'w') as fh:
+      _json.dump({'repo': core.REPO, 'mode': case['mode'], 'items': case['items']}, fh)
+    env = dict(os.environ)
+    env.pop('JAX_ENABLE_X64', None)
+    env.pop('JAX_THREEFRY_PARTITIONABLE', None)
+    env['XLA_FLAGS'] = ''
+    log = open(os.path.join(tmp, 'log.txt'), 'w')
+    proc = subprocess.Popen([sys.executable, os.path.join(os.path.dirname(os.path.abspath(__file__)), 'c18_probe.py'),
+                             spec_p, out_p], stdout=log, stderr=subprocess.STDOUT, env=env)
+    children[dg] = (proc, tmp, out_p, log)
+    return children[dg]
+
+  def _probe_collect(self, case):
+    import shutil, json as _json, subprocess
+    proc, tmp, out_p, log = self._probe_start(case)
+    try:
+      try:
+        proc.wait(timeout=280)
+      except subprocess.TimeoutExpired:
+        proc.kill()
+        raise core.InfraError('C18 probe child timed out')
+      log.close()
+      if not os.path.exists(out_p):
+        tail = open(os.path.join(tmp, 'log.txt')).read()[-600:]
+        raise core.InfraError(f'C18 probe child ({case["mode"]}) produced no result (exit {proc.returncode}): {tail}')
+      return _json.load(open(out_p))
+    finally:
+      self._children.pop(core.case_digest(case), None)
+      shutil.rmtree(tmp, ignore_errors=True)
+
+  def finish(self, ctx):
+    import shutil
+    for proc, tmp, _, log in list(self.__dict__.get('_children', {}).values()):
+      try:
+        proc.kill()
+        proc.wait(timeout=10)
+        log.close()
+      except Exception:   # pylint: disable=broad-except
+        pass
+      shutil.rmtree(tmp, ignore_errors=True)
+    self.__dict__['_children'] = {}
+    return []
+
+  def _eval_probe(self, case, ctx):
+    """judges the raw outputs of the child against exact references; the oracle statements are the same
+    as in the main process (transform = H x, norm preserved, inverse restores every entry in its shape)."""
+    mode = case['mode']
+    res = self._probe_collect(case)
+    if res.get('status') != 'ok':
+      ctx.count('probe_skipped_' + mode)
+      return Outcome(nontrivial=False, tags=(f'probe:{mode}:skipped',), detail={'why': res.get('why')})
+    ctx.count('probe_runs_' + mode)
+    x64 = mode == 'x64'
+    rel = 1e-12 if x64 else None
+    problems, corr, fkey = [], [], None
+    K = f'C18/probe-{mode}/'
+
+    def restored_ok(z, x, sc):
+      if x64:
+        return abs(z - x) <= 1e-12 * sc + 1e-300
+      return abs(z - x) <= 1e-5 * sc + 1e-4 * abs(x) + 1e-6
+
+    def norm_ok(ny, nx):
+      return abs(ny - nx) <= ((1e-12 if x64 else 1e-4) * nx + (1e-300 if x64 else 1e-6))
+
+    def fail(msg, key):
+      nonlocal fkey
+      problems.append(f'[{mode}] ' + msg)
+      fkey = fkey or (K + key)
+
+    for it, r in zip(case['items'], res['results']):
+      op = it['op']
+      if 'err' in r:
+        fail(f'{op} on {it.get("shape", len(it.get("x", [])))} raised {r["err"]}', op + '-raises')
+        continue
+      if op == 'wht':
+        xs = it['x']
+        n = len(xs)
+        want = fwht_ref([Fraction(v) for v in xs])
+        sc = sum(abs(Fraction(v)) for v in xs)
+        y = r['y']
+        if r['shape'] != [n]:
+          fail(f'transform of a length-{n} {it["dtype"]} vector has shape {r["shape"]}', 'wht-shape')
+        elif it['dtype'].startswith('int') or all(float(v).is_integer() for v in xs):
+          bad = [i for i in range(n) if Fraction(y[i]) != want[i]]
+          if bad:
+            fail(f'{it["dtype"]} transform(len {n}, small_n={it.get("small")})[{bad[0]}] = {y[bad[0]]!r}, H x gives '
+                 f'{int(want[bad[0]])} ({len(bad)} entries differ; all values are exactly representable)', 'wht-value')
+        else:
+          bad = [i for i in range(n) if abs(Fraction(y[i]) - want[i]) > Fraction(rel) * sc]
+          if bad:
+            i = bad[0]
+            fail(f'float64 transform(len {n}, small_n={it.get("small")})[{i}] = {y[i]!r}, H x gives {float(want[i])!r}: '
+                 f'relative error {float(abs(Fraction(y[i]) - want[i]) / sc):.2e} > 1e-12 ({len(bad)} entries)', 'wht-value')
+        if r['dtype'] != r['in_dtype']:
+          corr.append(f'[{mode}] transform of {r["in_dtype"]} returned {r["dtype"]}')
+        ctx.count('probe_items_wht')
+      elif op == 'rot':
+        xs, sh = it['x'], it['shape']
+        what = f'shape {tuple(sh)} key {it["key"]}'
+        sc = sum(abs(v) for v in xs)
+        nx = sum(Fraction(v) ** 2 for v in xs)
+        ny = sum(Fraction(v) ** 2 for v in r['y'])
+        if not norm_ok(float(ny), float(nx)):
+          fail(f'rotation of {what}: norm^2 {float(nx)!r} became {float(ny)!r}', 'rot-norm')
+        if r['rec_shape'] != list(sh):
+          fail(f'rotation of {what}: recorded shape {r["rec_shape"]}', 'rot-shape-record')
+        if 'inv_err' in r:
+          fail(f'inverse rotation of {what} raised {r["inv_err"]}', 'rot-inverse-raises')
+        elif r['z_shape'] != list(sh):
+          fail(f'inverse rotation of {what} has shape {r["z_shape"]}', 'rot-restored-shape')
+        else:
+          bad = [i for i in range(len(xs)) if not restored_ok(r['z'][i], xs[i], sc)]
+          if bad:
+            i = bad[0]
+            fail(f'inverse rotation with the same key does not restore {what}: entry {i} is {r["z"][i]!r}, was {xs[i]!r} '
+                 f'({len(bad)} of {len(xs)} entries)', 'rot-inverse-value')
+        if x64 and (r['y_dtype'] != 'float64' or r.get('z_dtype', 'float64') != 'float64'):
+          corr.append(f'[{mode}] float64 rotation returned {r["y_dtype"]}/{r.get("z_dtype")}')
+        # model with the signs the child drew for (key, [d]) under the same configuration
+        d = len(r['signs'])
+        if len(r['y']) == d and set(r['signs']) <= {1, -1}:
+          ans = ctx.drv.ask1('c18.rot', r['signs'], [Fraction(v) for v in xs])
+          if ans[0] == 'ok' and any(not close(a * math.sqrt(d), b, sc) for a, b in zip(r['y'], ans[1])):
+            corr.append(f'[{mode}] rotation of {what} differs from the model with rademacher(key, [{d}])')
+        else:
+          corr.append(f'[{mode}] rotation of {what}: padded length {len(r["y"])} vs model {d}')
+        ctx.count('probe_items_rot')
+      elif op == 'tree':
+        spec = it['spec']
+        leaf_specs = spec_all_leaves(spec)
+        ids = {id(l): i for i, l in enumerate(leaf_specs)}
+        order = self.jax.tree_util.tree_leaves(spec_build(spec, lambda l: ids[id(l)]))
+        xss = [leaf_specs[i][2] for i in order]
+        shs = [list(leaf_specs[i][1]) for i in order]
+        what = f'tree with leaf shapes {shs} key {it["key"]}'
+        if not r.get('rot_struct_ok'):
+          fail(f'rotated {what} has a different structure', 'tree-structure')
+        else:
+          for i, (xs, yl) in enumerate(zip(xss, r['rot_leaves'])):
+            nx, ny = sum(v * v for v in xs), sum(v * v for v in yl)
+            if not norm_ok(ny, nx):
+              fail(f'{what}: leaf {i} norm^2 {nx!r} became {ny!r}', 'tree-norm')
+        if 'inv_err' in r:
+          fail(f'inverse of {what} raised {r["inv_err"]}', 'tree-inverse-raises')
+        elif not r.get('inv_struct_ok'):
+          fail(f'restored {what} has a different structure', 'tree-structure')
+        else:
+          for i, (xs, zl, zs) in enumerate(zip(xss, r['inv_leaves'], r['inv_shapes'])):
+            sc = sum(abs(v) for v in xs)
+            if zs != shs[i]:
+              fail(f'{what}: leaf {i} restored with shape {zs}', 'tree-restored-shape')
+            else:
+              bad = [j for j in range(len(xs)) if not restored_ok(zl[j], xs[j], sc)]
+              if bad:
+                fail(f'{what}: leaf {i} (shape {tuple(shs[i])}) is not restored: entry {bad[0]} is {zl[bad[0]]!r}, was '
+                     f'{xs[bad[0]]!r} ({len(bad)} of {len(xs)} entries)', 'tree-inverse-value')
+        ctx.count('probe_items_tree')
+    ops = sorted({it['op'] for it in case['items']})
+    return Outcome(oracle_fail='; '.join(problems[:3]) or None, corr_fail='; '.join(corr[:3]) or None,
+                   nontrivial=bool(case['items']), tags=tuple([f'probe:{mode}'] + [f'probe:{mode}:{o}' for o in ops]),
+                   key=fkey, detail={'mode': mode, 'jax': res.get('jax'), 'n_items': len(case['items']),
+                                     'problems': problems[:8]})
 
   # ---- trees ----------------------------------------------------------------------------------
 
